@@ -12,7 +12,8 @@
 (*    Fin{st, hdr, body}            after the last call: as above; header never sent: status 200 and the        *)
 (*                                  former headers or the flushed Header() (clause 4)                           *)
 (*  Case{kind "fwd", ...}  H{view}  Conv{view}: FwdOK   Iso{hh, oh}: IsoOK                     (clauses 1, 4)   *)
-(*  Case{kind "rev", ...}  N{view}  Copy{view}: CopyOK  Wire{view}: WireOK  Back{view}: FwdOK   (clause 2)      *)
+(*  Case{kind "rev", ...}  N{view}  Copy{view}: CopyOK  CopyLen{cl, blen}: CopyLenOK  Wire{view}: WireOK           *)
+(*                         Back{view}: FwdOK                                                   (clause 2)      *)
 (*  End                                                                                                        *)
 (* Panic, BuildErr or anything else has no action (clause 5): the case is rejected at that line.               *)
 (* The same module validates the recording of httptest.ResponseRecorder (driver -impl recorder).              *)
@@ -84,7 +85,8 @@ FwdH    == Line.ev = "H"    /\ ph = "H"    /\ ~Line.err /\ Keep("h", "Conv")
 FwdConv == Line.ev = "Conv" /\ ph = "Conv" /\ FwdOK(cur, mem.h, Line) /\ Keep("o", "Iso")
 FwdIso  == Line.ev = "Iso"  /\ ph = "Iso"  /\ IsoOK(mem.h, mem.o, Line) /\ ph' = "end" /\ UNCHANGED <<vars, cur, mem>>
 RevN    == Line.ev = "N"    /\ ph = "N"    /\ ~Line.err /\ ~Line.berr /\ Keep("n", "Copy")
-RevCopy == Line.ev = "Copy" /\ ph = "Copy" /\ CopyOK(mem.n, Line) /\ Keep("c", "Wire")
+RevCopy == Line.ev = "Copy" /\ ph = "Copy" /\ CopyOK(mem.n, Line) /\ Keep("c", "CopyLen")
+RevLen  == Line.ev = "CopyLen" /\ ph = "CopyLen" /\ CopyLenOK(Line) /\ Line.blen = Len(mem.c.body) /\ ph' = "Wire" /\ UNCHANGED <<vars, cur, mem>>
 RevWire == Line.ev = "Wire" /\ ph = "Wire" /\ WireOK(mem.n, Line) /\ ph' = "Back" /\ UNCHANGED <<vars, cur, mem>>
 RevBack == Line.ev = "Back" /\ ph = "Back" /\ FwdOK(cur, mem.c, Line) /\ ph' = "end" /\ UNCHANGED <<vars, cur, mem>>
 
@@ -92,7 +94,7 @@ TraceEnd == Line.ev = "End" /\ ph = "end" /\ Idle
 
 -----------------------------------------------------------------------------
 Normal == /\ l <= Len(Trace)
-          /\ (RwCase \/ RwNew \/ RwCall \/ RwFin \/ ReqCase \/ FwdH \/ FwdConv \/ FwdIso \/ RevN \/ RevCopy \/ RevWire \/ RevBack \/ TraceEnd)
+          /\ (RwCase \/ RwNew \/ RwCall \/ RwFin \/ ReqCase \/ FwdH \/ FwdConv \/ FwdIso \/ RevN \/ RevCopy \/ RevLen \/ RevWire \/ RevBack \/ TraceEnd)
           /\ l' = l + 1 /\ UNCHANGED bad
 
 NextCase(k) == IF \E j \in k + 1 .. Len(Trace) : Trace[j].ev = "Case"
